@@ -319,7 +319,10 @@ SLOT_REVIEWED_BY_ROLE = {
 SLOT_REVIEWED = {
     ("frontend::worker_tree::WorkerTree", "node_map"): "path -> node index; iterated to find the nodes under a path prefix, each found node is restarted independently (idempotent, no output depends on the order)",
     ("frontend::worker_tree::WorkerTree", "external_dependencies"): "file -> set of dependent nodes; iterated to restart dependents / list watched files: set semantics",
+    ("frontend::work_item::WorkItem", "external_file_dependencies"): "the set of files an item read; iterated by the worker tree to link / unlink the item in the dependency map, one keyed operation per element (order-free)",
 }
+# owners whose methods may iterate the reviewed slots above
+SLOT_OWNERS = ("frontend::worker_tree::WorkerTree", "frontend::work_item::WorkItem")
 CONFIGURE_REASON = "`for (key, value) in properties`: each key writes its own field; keys writing the same field are excluded by verify_property_collisions (C19.collide)"
 
 
@@ -363,7 +366,7 @@ def order(R, ctx):
                                         if ga is not None and i < len(cc["args"]):
                                             slots |= {o for o in ga.origins(cc["args"][i]) if o[0] != "#param"}
                     for sl in slots:
-                        if sl in SLOT_REVIEWED and sl[0] == owner:
+                        if sl in SLOT_REVIEWED and owner in SLOT_OWNERS:
                             why = SLOT_REVIEWED[sl]
                     if why is None and crate is ctx.lib:
                         from . import c09 as _c09
